@@ -99,7 +99,7 @@ Lemma res_unit_eta (r : res unit) : match r with Ok _ => Ok tt | Bad n c => Bad 
 Proof. destruct r as [[]|n c]; reflexivity. Qed.
 
 Ltac minv H :=
-  cbv beta in H;
+  cbv beta zeta in H;
   lazymatch type of H with
   | bind _ _ = Ok _ =>
       let a := fresh "a" in let H1 := fresh "E" in let H2 := fresh "E" in
@@ -107,6 +107,7 @@ Ltac minv H :=
       try (match type of a with unit => destruct a end);
       minv H1; minv H2
   | guard _ _ _ = Ok _ => apply guard_ok_inv in H
+  | Ok ?x = Ok _ => first [is_var x; injection H as H; subst x | idtac]
   | _ => idtac
   end.
 
@@ -465,5 +466,649 @@ Proof.
   - unfold nids_library at 1. in_tac.
   - apply IH in H. in_tac.
 Qed.
+
+(* ------------------------------------------------------------------------------------------ *)
+(* (B) the verdict after replacing the phrase with id s                                         *)
+(* ------------------------------------------------------------------------------------------ *)
+Definition app_ph (ph : phrase) : phrase :=
+  match ph with
+  | PStmt x => PStmt (fs x)
+  | PConc c => PConc (fc c)
+  | PInit ty e => PInit ty (fe e)
+  end.
+
+Ltac fin :=
+  repeat first
+    [ progress cbn [bind guard]
+    | match goal with H : ?X = Ok _ |- context [?X] => rewrite H end
+    | match goal with H : ?X = true |- context [?X] => rewrite H end ].
+
+Section WithGE2.
+Variable md : mode.
+Variable GE : genv.
+
+Definition Vf (i : pinfo) : res unit := check_phrase md (pi_GE i) (pi_G i) (app_ph (pi_ph i)).
+
+Ltac fin_v j := fin; generalize (Vf j); intros [[]|? ?]; fin; reflexivity.
+
+Lemma find_walk_stmt G x :
+  find is_s (walk_stmt GE G x) =
+  if stmt_nid x =? s then Some (PInfo (stmt_nid x) GE G (PStmt x)) else find is_s (stmt_inner GE G x).
+Proof. rewrite walk_stmt_unfold. reflexivity. Qed.
+Lemma stmt_headB G x j :
+  (stmt_nid x =? s) = true -> find is_s (walk_stmt GE G x) = Some j -> check_stmt md GE G (fs x) = Vf j.
+Proof. intros E H. rewrite find_walk_stmt, E in H. injection H as H. subst j. reflexivity. Qed.
+
+Lemma find_stmt_in G x j : find is_s (walk_stmt GE G x) = Some j -> In s (nids_stmt x).
+Proof. intros H. apply find_is_s_in in H. destruct H as [H1 H2]. rewrite <- H2. exact (proj1 (walk_stmt_ids GE) x G j H1). Qed.
+Lemma find_stmts_in G x j : find is_s (walk_stmts GE G x) = Some j -> In s (nids_stmts x).
+Proof. intros H. apply find_is_s_in in H. destruct H as [H1 H2]. rewrite <- H2. exact (walk_stmts_ids GE x G j H1). Qed.
+Lemma find_calts_in G x j : find is_s (walk_calts GE G x) = Some j -> In s (nids_calts x).
+Proof. intros H. apply find_is_s_in in H. destruct H as [H1 H2]. rewrite <- H2. exact (proj2 (proj2 (walk_stmt_ids GE)) x G j H1). Qed.
+
+Lemma check_stmt_SIf G i c th el :
+  check_stmt md GE G (SIf i c th el) = (root md GE G SBool c ;;; check_stmts md GE G th ;;; check_stmts md GE G el).
+Proof. reflexivity. Qed.
+Lemma check_stmt_SCase G i sel alts oth :
+  check_stmt md GE G (SCase i sel alts oth) =
+  (o <- obj_name md GE G sel ;;
+   guard (match snd o with SEnum _ _ _ | SInt | SIntT _ _ | SBool | SBit => true | _ => false end) (root_nid_name sel) Other ;;;
+   guard (nodup_keys (map cchoice_key (calts_choices alts))) i Conservative ;;;
+   check_calts md GE G (snd o) alts ;;;
+   check_stmts md GE G oth).
+Proof. reflexivity. Qed.
+Lemma check_stmt_SFor G i v lo hi b :
+  check_stmt md GE G (SFor i v lo hi b) =
+  (G' <- declare (push G) v (BObj KConst MNone SInt) ;; check_stmts md GE G' b).
+Proof. reflexivity. Qed.
+Lemma check_stmt_SWhile G i c b :
+  check_stmt md GE G (SWhile i c b) = (root md GE G SBool c ;;; check_stmts md GE G b).
+Proof. reflexivity. Qed.
+Lemma check_stmts_cons G x r :
+  check_stmts md GE G (SCons x r) = (check_stmt md GE G x ;;; check_stmts md GE G r).
+Proof. reflexivity. Qed.
+Lemma check_calts_cons G t cs b r :
+  check_calts md GE G t (CACons cs b r) =
+  (check_list (check_cchoice G t) cs ;;; check_stmts md GE G b ;;; check_calts md GE G t r).
+Proof. reflexivity. Qed.
+Lemma calts_choices_sub a : calts_choices (sub_calts s fs a) = calts_choices a.
+Proof. induction a as [|cs b r IH]; [reflexivity|]. rewrite sub_calts_cons. cbn [calts_choices]. rewrite IH. reflexivity. Qed.
+
+Ltac stmt_leaf :=
+  intros; rewrite sub_stmt_unfold; destruct (stmt_nid _ =? s) eqn:E;
+  [eapply stmt_headB; eassumption
+  |match goal with Hf : find _ _ = Some _ |- _ =>
+     rewrite find_walk_stmt, E in Hf; cbn [stmt_inner find] in Hf; discriminate Hf end].
+Ltac stmt_start Hf :=
+  rewrite sub_stmt_unfold; destruct (stmt_nid _ =? s) eqn:E; [eapply stmt_headB; eassumption|];
+  rewrite find_walk_stmt, E in Hf; cbn [stmt_inner] in Hf.
+
+Lemma sub_stmt_B :
+  (forall x G j, check_stmt md GE G x = Ok tt -> NoDup (nids_stmt x) ->
+     find is_s (walk_stmt GE G x) = Some j -> check_stmt md GE G (sub_stmt s fs x) = Vf j) /\
+  (forall x G j, check_stmts md GE G x = Ok tt -> NoDup (nids_stmts x) ->
+     find is_s (walk_stmts GE G x) = Some j -> check_stmts md GE G (sub_stmts s fs x) = Vf j) /\
+  (forall x G t j, check_calts md GE G t x = Ok tt -> NoDup (nids_calts x) ->
+     find is_s (walk_calts GE G x) = Some j -> check_calts md GE G t (sub_calts s fs x) = Vf j).
+Proof.
+  apply stmt_stmts_calts_ind.
+  - stmt_leaf.
+  - stmt_leaf.
+  - intros i c th IHth el IHel G j Hc Hn Hf. stmt_start Hf.
+    rewrite check_stmt_SIf in Hc |- *. minv Hc. cbn [nids_stmt] in Hn. nd_split.
+    apply find_app_cases in Hf. destruct Hf as [Hf|[_ Hf]]; pose proof (find_stmts_in _ _ _ Hf) as Hin.
+    + rewrite (sub_stmts_id el) by notin s. rewrite (IHth G j) by assumption. fin_v j.
+    + rewrite (sub_stmts_id th) by notin s. rewrite (IHel G j) by assumption. fin_v j.
+  - intros i sel alts IHa oth IHo G j Hc Hn Hf. stmt_start Hf.
+    rewrite check_stmt_SCase in Hc |- *. minv Hc. cbn [nids_stmt] in Hn. nd_split.
+    rewrite calts_choices_sub.
+    apply find_app_cases in Hf. destruct Hf as [Hf|[_ Hf]].
+    + pose proof (find_calts_in _ _ _ Hf) as Hin.
+      rewrite (sub_stmts_id oth) by notin s. fin. rewrite (IHa G _ j) by assumption. fin_v j.
+    + pose proof (find_stmts_in _ _ _ Hf) as Hin.
+      rewrite (proj2 (proj2 sub_stmt_id) alts) by notin s. fin. rewrite (IHo G j) by assumption. fin_v j.
+  - intros i v lo hi b IHb G j Hc Hn Hf. stmt_start Hf.
+    rewrite check_stmt_SFor in Hc |- *. minv Hc. cbn [nids_stmt] in Hn. nd_split.
+    match goal with H : declare _ _ _ = Ok _ |- _ => rewrite H in Hf |- * end. cbn [ok_env] in Hf. cbn [bind].
+    apply IHb; assumption.
+  - intros i c b IHb G j Hc Hn Hf. stmt_start Hf.
+    rewrite check_stmt_SWhile in Hc |- *. minv Hc. cbn [nids_stmt] in Hn. nd_split.
+    rewrite (IHb G j) by assumption. fin_v j.
+  - stmt_leaf.
+  - stmt_leaf.
+  - stmt_leaf.
+  - intros G j _ _ Hf. discriminate Hf.
+  - intros x IHx r IHr G j Hc Hn Hf. rewrite walk_stmts_cons in Hf. rewrite sub_stmts_cons.
+    rewrite check_stmts_cons in Hc |- *. minv Hc. cbn [nids_stmts] in Hn. nd_split.
+    apply find_app_cases in Hf. destruct Hf as [Hf|[_ Hf]].
+    + pose proof (find_stmt_in _ _ _ Hf) as Hin.
+      rewrite (sub_stmts_id r) by notin s. rewrite (IHx G j) by assumption. fin_v j.
+    + pose proof (find_stmts_in _ _ _ Hf) as Hin.
+      rewrite (proj1 sub_stmt_id x) by notin s. rewrite (IHr G j) by assumption. fin_v j.
+  - intros G t j _ _ Hf. discriminate Hf.
+  - intros cs b IHb r IHr G t j Hc Hn Hf. rewrite walk_calts_cons in Hf. rewrite sub_calts_cons.
+    rewrite check_calts_cons in Hc |- *. minv Hc. cbn [nids_calts] in Hn. nd_split.
+    apply find_app_cases in Hf. destruct Hf as [Hf|[_ Hf]].
+    + pose proof (find_stmts_in _ _ _ Hf) as Hin.
+      rewrite (proj2 (proj2 sub_stmt_id) r) by notin s. rewrite (IHb G j) by assumption. fin_v j.
+    + pose proof (find_calts_in _ _ _ Hf) as Hin.
+      rewrite (sub_stmts_id b) by notin s. rewrite (IHr G t j) by assumption. fin_v j.
+Qed.
+Definition sub_stmts_B := proj1 (proj2 sub_stmt_B).
+
+(* initial values *)
+Lemma init_found G o t e j :
+  find is_s (init_info GE G o t e) = Some j ->
+  exists e0, e = Some e0 /\ (o_nid o =? s) = true /\ j = PInfo (o_nid o) GE G (PInit (tmark_ty GE G t) e0).
+Proof.
+  destruct e as [e0|]; cbn [init_info find]; [|discriminate]. unfold is_s. cbn [pi_id].
+  destruct (o_nid o =? s); [|discriminate]. intros H. injection H as H. exists e0. auto.
+Qed.
+Lemma tmark_ty_ok G t ty : resolve_tmark GE G t = Ok ty -> tmark_ty GE G t = ty.
+Proof. intros H. unfold tmark_ty. rewrite H. reflexivity. Qed.
+Lemma Vf_init G o t e0 :
+  Vf (PInfo (o_nid o) GE G (PInit (tmark_ty GE G t) e0)) = root md GE G (tmark_ty GE G t) (fe e0).
+Proof. reflexivity. Qed.
+
+Ltac fin_r :=
+  fin; match goal with |- context [root ?a ?b ?c ?d ?e] => destruct (root a b c d e) as [[]|? ?] end; fin; reflexivity.
+
+Lemma sub_ldecl_B G G' d j :
+  check_ldecl md GE G d = Ok G' -> find is_s (walk_ldecl GE G d) = Some j ->
+  check_ldecl md GE G (sub_ldecl s fe d) = (Vf j ;;; Ok G').
+Proof.
+  destruct d as [o t i|o t i]; cbn [walk_ldecl sub_ldecl]; intros Hc Hf;
+    apply init_found in Hf; destruct Hf as [e0 [Hi [E Hj]]]; subst j; rewrite Vf_init.
+  - subst i. cbn [sub_oinit]. rewrite E. unfold check_ldecl in Hc |- *. minv Hc.
+    cbn [check_oinit] in *. rewrite (tmark_ty_ok _ _ _ E0). fin_r.
+  - injection Hi as Hi. subst i. rewrite E. unfold check_ldecl in Hc |- *. minv Hc.
+    rewrite (tmark_ty_ok _ _ _ E0). fin_r.
+Qed.
+
+Lemma walk_ldecls_app ls : forall G G' k,
+  check_ldecls md GE G ls = Ok G' ->
+  walk_ldecls md GE G ls k = walk_ldecls md GE G ls (fun _ => []) ++ k G'.
+Proof.
+  induction ls as [|d r IH]; intros G G' k Hc; cbn [check_ldecls walk_ldecls] in *.
+  - injection Hc as Hc. subst G'. reflexivity.
+  - minv Hc. rewrite E. cbn [ok_env]. rewrite (IH _ _ k E0). rewrite app_assoc. reflexivity.
+Qed.
+Lemma find_ldecls_in G ls j :
+  find is_s (walk_ldecls md GE G ls (fun _ => [])) = Some j -> In s (flat_map nids_ldecl ls).
+Proof.
+  intros H. apply find_is_s_in in H. destruct H as [H1 H2]. rewrite <- H2.
+  apply walk_ldecls_ids in H1. destruct H1 as [H1|[G' []]]. exact H1.
+Qed.
+Lemma find_ldecl_in G d j : find is_s (walk_ldecl GE G d) = Some j -> In s (nids_ldecl d).
+Proof. intros H. apply find_is_s_in in H. destruct H as [H1 H2]. rewrite <- H2. exact (walk_ldecl_ids GE G d j H1). Qed.
+
+Lemma sub_ldecls_B ls : forall G G' j,
+  check_ldecls md GE G ls = Ok G' -> NoDup (flat_map nids_ldecl ls) ->
+  find is_s (walk_ldecls md GE G ls (fun _ => [])) = Some j ->
+  check_ldecls md GE G (map (sub_ldecl s fe) ls) = (Vf j ;;; Ok G').
+Proof.
+  induction ls as [|d r IH]; intros G G' j Hc Hn Hf; cbn [check_ldecls walk_ldecls map] in *; [discriminate Hf|].
+  minv Hc. rewrite E in Hf. cbn [ok_env] in Hf. rewrite flat_map_cons in Hn. nd_split.
+  apply find_app_cases in Hf. destruct Hf as [Hf|[_ Hf]].
+  - pose proof (find_ldecl_in _ _ _ Hf) as Hin.
+    rewrite (sub_ldecls_id r) by notin s. rewrite (sub_ldecl_B _ _ _ _ E Hf). fin_v j.
+  - pose proof (find_ldecls_in _ _ _ Hf) as Hin.
+    rewrite (sub_ldecl_id d) by notin s. fin. apply IH; assumption.
+Qed.
+
+(* interface lists *)
+Lemma declare_ifaces_cons c G i r :
+  declare_ifaces md GE c G (i :: r) = (G1 <- declare_ifaces md GE c G [i] ;; declare_ifaces md GE c G1 r).
+Proof.
+  cbn [declare_ifaces].
+  destruct (resolve_tmark GE G (i_ty i)) as [ty|? ?]; cbn [bind]; [|reflexivity].
+  destruct (check_oinit md GE G ty (i_def i)) as [?|? ?]; cbn [bind]; [|reflexivity].
+  destruct (guard _ (o_nid (i_occ i)) Other) as [?|? ?]; cbn [bind]; [|reflexivity].
+  destruct (declare G (i_occ i) (BObj c (i_mode i) ty)) as [?|? ?]; reflexivity.
+Qed.
+Lemma walk_ifaces_app c l : forall G G' k,
+  declare_ifaces md GE c G l = Ok G' ->
+  walk_ifaces md GE c G l k = walk_ifaces md GE c G l (fun _ => []) ++ k G'.
+Proof.
+  induction l as [|i r IH]; intros G G' k Hc.
+  - cbn [declare_ifaces walk_ifaces] in *. injection Hc as Hc. subst G'. reflexivity.
+  - rewrite declare_ifaces_cons in Hc. minv Hc. cbn [walk_ifaces]. rewrite E. cbn [ok_env].
+    rewrite (IH _ _ k E0). rewrite app_assoc. reflexivity.
+Qed.
+Lemma find_ifaces_in c G l j :
+  find is_s (walk_ifaces md GE c G l (fun _ => [])) = Some j -> In s (flat_map nids_iface l).
+Proof.
+  intros H. apply find_is_s_in in H. destruct H as [H1 H2]. rewrite <- H2.
+  apply walk_ifaces_ids in H1. destruct H1 as [H1|[G' []]]. exact H1.
+Qed.
+Lemma sub_ifaces_B c l : forall G G' j,
+  declare_ifaces md GE c G l = Ok G' -> NoDup (flat_map nids_iface l) ->
+  find is_s (walk_ifaces md GE c G l (fun _ => [])) = Some j ->
+  declare_ifaces md GE c G (map (sub_iface s fe) l) = (Vf j ;;; Ok G').
+Proof.
+  induction l as [|i r IH]; intros G G' j Hc Hn Hf; [discriminate Hf|].
+  rewrite declare_ifaces_cons in Hc. minv Hc. cbn [walk_ifaces] in Hf. rewrite E in Hf. cbn [ok_env] in Hf.
+  rewrite flat_map_cons in Hn. nd_split. cbn [map].
+  apply find_app_cases in Hf. destruct Hf as [Hf|[_ Hf]].
+  - apply init_found in Hf. destruct Hf as [e0 [Hi [Es Hj]]]. subst j. rewrite Vf_init.
+    assert (Hin : In s (nids_iface i)) by (unfold nids_iface, nids_occ; apply N.eqb_eq in Es; rewrite Es; left; reflexivity).
+    rewrite (sub_ifaces_id r) by notin s.
+    rewrite declare_ifaces_cons.
+    unfold sub_iface. rewrite Hi. cbn [sub_oinit]. rewrite Es.
+    cbn [declare_ifaces i_occ i_mode i_ty i_def] in E |- *. rewrite Hi in E. minv E.
+    cbn [check_oinit] in *. rewrite (tmark_ty_ok _ _ _ E1). fin_r.
+  - pose proof (find_ifaces_in _ _ _ _ Hf) as Hin.
+    rewrite (sub_iface_id i) by notin s. rewrite declare_ifaces_cons. fin. apply IH; assumption.
+Qed.
+Lemma iface_sig_sub G i : iface_sig GE G (sub_iface s fe i) = iface_sig GE G i.
+Proof. destruct i as [o m t [e|]]; reflexivity. Qed.
+Lemma iface_sigs_sub G l : map (iface_sig GE G) (map (sub_iface s fe) l) = map (iface_sig GE G) l.
+Proof. rewrite map_map. apply map_ext. intros i. apply iface_sig_sub. Qed.
+
+(* subprogram bodies *)
+Lemma sub_body_B G ps ret ls b j :
+  check_sub_body md GE G ps ret ls b = Ok tt -> NoDup (flat_map nids_ldecl ls ++ nids_stmts b) ->
+  find is_s (walk_sub_body md GE G ps ret ls b) = Some j ->
+  check_sub_body md GE G ps ret (map (sub_ldecl s fe) ls) (sub_stmts s fs b) = Vf j.
+Proof.
+  unfold check_sub_body, walk_sub_body. intros Hc Hn Hf. minv Hc. rewrite E in Hf |- *. cbn [ok_env] in Hf. cbn [bind].
+  rewrite (walk_ldecls_app _ _ _ _ E1) in Hf. nd_split.
+  apply find_app_cases in Hf. destruct Hf as [Hf|[_ Hf]].
+  - pose proof (find_ldecls_in _ _ _ Hf) as Hin.
+    rewrite (sub_stmts_id b) by notin s. rewrite (sub_ldecls_B _ _ _ _ E1 Nd Hf). fin_v j.
+  - pose proof (find_stmts_in _ _ _ Hf) as Hin.
+    rewrite (sub_ldecls_id ls) by notin s. fin. apply sub_stmts_B; assumption.
+Qed.
+
+(* declarations *)
+Lemma decl_obligation_sub G d : decl_obligation GE G (sub_decl s fs fe d) = decl_obligation GE G d.
+Proof. destruct d as [| |o t [e|]| | | | | |]; reflexivity. Qed.
+Lemma decl_obligations_sub G ds :
+  flat_map (decl_obligation GE G) (map (sub_decl s fs fe) ds) = flat_map (decl_obligation GE G) ds.
+Proof. induction ds as [|d r IH]; cbn [map flat_map]; [reflexivity|]. rewrite decl_obligation_sub, IH. reflexivity. Qed.
+
+Lemma sub_decl_B rg obl G G' d j :
+  check_decl md GE rg obl G d = Ok G' -> NoDup (nids_decl d) ->
+  find is_s (walk_decl md GE G G' d) = Some j ->
+  check_decl md GE rg obl G (sub_decl s fs fe d) = (Vf j ;;; Ok G').
+Proof.
+  intros Hc Hn Hf.
+  destruct d as [o td|o t rng|o t init|o t init|o ps rt|o ps|o ps rt ls b|o ps ls b|o gs ps];
+    cbn [walk_decl] in Hf; try discriminate Hf.
+  - (* DConst *)
+    apply init_found in Hf. destruct Hf as [e0 [Hi [Es Hj]]]. subst j init. rewrite Vf_init.
+    cbn [sub_decl sub_oinit]. rewrite Es.
+    unfold check_decl in Hc |- *.
+    change (allowed rg (DConst o t (Some (fe e0)))) with (allowed rg (DConst o t (Some e0))).
+    cbn [decl_occ] in *. minv Hc.
+    match goal with H : resolve_tmark _ _ _ = Ok _ |- _ => rewrite (tmark_ty_ok _ _ _ H) end.
+    fin_r.
+  - (* DSignal *)
+    apply init_found in Hf. destruct Hf as [e0 [Hi [Es Hj]]]. subst j init. rewrite Vf_init.
+    cbn [sub_decl sub_oinit]. rewrite Es.
+    unfold check_decl in Hc |- *.
+    change (allowed rg (DSignal o t (Some (fe e0)))) with (allowed rg (DSignal o t (Some e0))).
+    cbn [decl_occ check_oinit] in *. minv Hc.
+    match goal with H : resolve_tmark _ _ _ = Ok _ |- _ => rewrite (tmark_ty_ok _ _ _ H) end.
+    fin_r.
+  - (* DFunBody *)
+    cbn [sub_decl]. unfold check_decl in Hc |- *.
+    change (allowed rg (DFunBody o ps rt (map (sub_ldecl s fe) ls) (sub_stmts s fs b))) with (allowed rg (DFunBody o ps rt ls b)).
+    cbn [decl_occ] in *. cbv beta zeta. minv Hc.
+    match goal with H : resolve_tmark _ _ _ = Ok _ |- _ => rewrite (tmark_ty_ok _ _ _ H) in Hf end.
+    cbn [nids_decl] in Hn. do 3 (apply NoDup_app_inv in Hn; destruct Hn as [_ [Hn _]]).
+    fin. match goal with H : check_sub_body _ _ _ _ _ _ _ = Ok tt |- _ => rewrite (sub_body_B _ _ _ _ _ _ H Hn Hf) end.
+    reflexivity.
+  - (* DProcBody *)
+    cbn [sub_decl]. unfold check_decl in Hc |- *.
+    change (allowed rg (DProcBody o ps (map (sub_ldecl s fe) ls) (sub_stmts s fs b))) with (allowed rg (DProcBody o ps ls b)).
+    cbn [decl_occ] in *. cbv beta zeta. minv Hc.
+    cbn [nids_decl] in Hn. do 2 (apply NoDup_app_inv in Hn; destruct Hn as [_ [Hn _]]).
+    fin. match goal with H : check_sub_body _ _ _ _ _ _ _ = Ok tt |- _ => rewrite (sub_body_B _ _ _ _ _ _ H Hn Hf) end.
+    reflexivity.
+  - (* DComp *)
+    cbn [sub_decl]. unfold check_decl in Hc |- *.
+    change (allowed rg (DComp o (map (sub_iface s fe) gs) (map (sub_iface s fe) ps))) with (allowed rg (DComp o gs ps)).
+    cbn [decl_occ] in *. minv Hc. rewrite !iface_sigs_sub.
+    cbn [nids_decl] in Hn. nd_split.
+    match goal with H : declare_ifaces _ _ KConst _ gs = Ok _ |- _ => rewrite (walk_ifaces_app _ _ _ _ _ H) in Hf end.
+    apply find_app_cases in Hf. destruct Hf as [Hf|[_ Hf]]; pose proof (find_ifaces_in _ _ _ _ Hf) as Hin.
+    + rewrite (sub_ifaces_id ps) by notin s.
+      erewrite sub_ifaces_B by eassumption.
+      fin_v j.
+    + rewrite (sub_ifaces_id gs) by notin s. fin.
+      erewrite sub_ifaces_B by eassumption.
+      fin_v j.
+Qed.
+
+Lemma walk_decls_app rg obl ds : forall G G' k,
+  check_decls md GE rg obl G ds = Ok G' ->
+  walk_decls md GE rg obl G ds k = walk_decls md GE rg obl G ds (fun _ => []) ++ k G'.
+Proof.
+  induction ds as [|d r IH]; intros G G' k Hc; cbn [check_decls walk_decls] in *.
+  - injection Hc as Hc. subst G'. reflexivity.
+  - minv Hc. rewrite E. cbn [ok_env]. rewrite (IH _ _ k E0). rewrite app_assoc. reflexivity.
+Qed.
+Lemma find_decls_in rg obl G ds j :
+  find is_s (walk_decls md GE rg obl G ds (fun _ => [])) = Some j -> In s (flat_map nids_decl ds).
+Proof.
+  intros H. apply find_is_s_in in H. destruct H as [H1 H2]. rewrite <- H2.
+  apply walk_decls_ids in H1. destruct H1 as [H1|[G' []]]. exact H1.
+Qed.
+Lemma find_decl_in G G' d j : find is_s (walk_decl md GE G G' d) = Some j -> In s (nids_decl d).
+Proof. intros H. apply find_is_s_in in H. destruct H as [H1 H2]. rewrite <- H2. exact (walk_decl_ids md GE G G' d j H1). Qed.
+
+Lemma sub_decls_B rg obl ds : forall G G' j,
+  check_decls md GE rg obl G ds = Ok G' -> NoDup (flat_map nids_decl ds) ->
+  find is_s (walk_decls md GE rg obl G ds (fun _ => [])) = Some j ->
+  check_decls md GE rg obl G (map (sub_decl s fs fe) ds) = (Vf j ;;; Ok G').
+Proof.
+  induction ds as [|d r IH]; intros G G' j Hc Hn Hf; cbn [check_decls walk_decls map] in *; [discriminate Hf|].
+  minv Hc. rewrite E in Hf. cbn [ok_env] in Hf. rewrite flat_map_cons in Hn. nd_split.
+  apply find_app_cases in Hf. destruct Hf as [Hf|[_ Hf]].
+  - pose proof (find_decl_in _ _ _ _ Hf) as Hin.
+    rewrite (sub_decls_id r) by notin s. rewrite (sub_decl_B _ _ _ _ _ _ E Nd Hf). fin_v j.
+  - pose proof (find_decls_in _ _ _ _ _ Hf) as Hin.
+    rewrite (sub_decl_id d) by notin s. fin. apply IH; assumption.
+Qed.
+
+(* concurrent statements; lab_rel: what happens to the labels *)
+Definition lab_rel (j : pinfo) (L L' : list ident) : Prop :=
+  L' = L \/
+  exists c0 l1 l2, pi_ph j = PConc c0 /\ L = l1 ++ labels_conc c0 ++ l2 /\ L' = l1 ++ labels_conc (fc c0) ++ l2.
+Lemma lab_rel_ctx j a b L L' : lab_rel j L L' -> lab_rel j (a ++ L ++ b) (a ++ L' ++ b).
+Proof.
+  intros [H|[c0 [l1 [l2 [H1 [H2 H3]]]]]]; [left; subst; reflexivity|].
+  right. exists c0, (a ++ l1), (l2 ++ b). subst. split; [exact H1|].
+  split; repeat rewrite <- app_assoc; reflexivity.
+Qed.
+Lemma lab_rel_app_l j b L L' : lab_rel j L L' -> lab_rel j (L ++ b) (L' ++ b).
+Proof. intros H. exact (lab_rel_ctx j [] b L L' H). Qed.
+Lemma lab_rel_app_r j a L L' : lab_rel j L L' -> lab_rel j (a ++ L) (a ++ L').
+Proof. intros H. pose proof (lab_rel_ctx j a [] L L' H) as H'. rewrite !app_nil_r in H'. exact H'. Qed.
+Lemma lab_rel_cons j x L L' : lab_rel j L L' -> lab_rel j (x :: L) (x :: L').
+Proof. intros H. exact (lab_rel_app_r j [x] L L' H). Qed.
+
+Lemma find_walk_conc G c :
+  find is_s (walk_conc md GE G c) =
+  if conc_nid c =? s then Some (PInfo (conc_nid c) GE G (PConc c)) else find is_s (conc_inner md GE G c).
+Proof. rewrite walk_conc_unfold. reflexivity. Qed.
+Lemma conc_headB G c j :
+  (conc_nid c =? s) = true -> find is_s (walk_conc md GE G c) = Some j ->
+  check_conc md GE G (fc c) = Vf j /\ lab_rel j (labels_conc c) (labels_conc (fc c)).
+Proof.
+  intros E H. rewrite find_walk_conc, E in H. injection H as H. subst j. split; [reflexivity|].
+  right. exists c, [], []. cbn [pi_ph app]. rewrite !app_nil_r. auto.
+Qed.
+Lemma find_conc_in G c j : find is_s (walk_conc md GE G c) = Some j -> In s (nids_conc c).
+Proof. intros H. apply find_is_s_in in H. destruct H as [H1 H2]. rewrite <- H2. exact (proj1 (walk_conc_ids md GE) c G j H1). Qed.
+Lemma find_concs_in G c j : find is_s (walk_concs md GE G c) = Some j -> In s (nids_concs c).
+Proof. intros H. apply find_is_s_in in H. destruct H as [H1 H2]. rewrite <- H2. exact (walk_concs_ids md GE c G j H1). Qed.
+
+Lemma check_conc_CProc G l sens ls b :
+  check_conc md GE G (CProc l sens ls b) =
+  (check_list (check_sens md GE G) sens ;;; G' <- check_ldecls md GE (push G) ls ;; check_stmts md GE G' b).
+Proof. reflexivity. Qed.
+Lemma check_conc_CBlock G l ds b :
+  check_conc md GE G (CBlock l ds b) =
+  (G' <- check_decls md GE RArch [] (push G) ds ;; check_concs md GE G' b).
+Proof. reflexivity. Qed.
+Lemma check_concs_cons G x r :
+  check_concs md GE G (CCons x r) = (check_conc md GE G x ;;; check_concs md GE G r).
+Proof. reflexivity. Qed.
+Lemma labels_conc_CBlock l ds b : labels_conc (CBlock l ds b) = o_id l :: labels_concs b.
+Proof. reflexivity. Qed.
+Lemma labels_concs_cons x r : labels_concs (CCons x r) = labels_conc x ++ labels_concs r.
+Proof. reflexivity. Qed.
+
+Ltac conc_leaf :=
+  intros; rewrite sub_conc_unfold; destruct (conc_nid _ =? s) eqn:E;
+  [eapply conc_headB; eassumption
+  |match goal with Hf : find _ _ = Some _ |- _ =>
+     rewrite find_walk_conc, E in Hf; cbn [conc_inner find] in Hf; discriminate Hf end].
+Ltac conc_start Hf :=
+  rewrite sub_conc_unfold; destruct (conc_nid _ =? s) eqn:E; [eapply conc_headB; eassumption|];
+  rewrite find_walk_conc, E in Hf; cbn [conc_inner] in Hf.
+
+Lemma sub_conc_B :
+  (forall c G j, check_conc md GE G c = Ok tt -> NoDup (nids_conc c) ->
+     find is_s (walk_conc md GE G c) = Some j ->
+     check_conc md GE G (sub_conc s fs fc fe c) = Vf j /\
+     lab_rel j (labels_conc c) (labels_conc (sub_conc s fs fc fe c))) /\
+  (forall c G j, check_concs md GE G c = Ok tt -> NoDup (nids_concs c) ->
+     find is_s (walk_concs md GE G c) = Some j ->
+     check_concs md GE G (sub_concs s fs fc fe c) = Vf j /\
+     lab_rel j (labels_concs c) (labels_concs (sub_concs s fs fc fe c))).
+Proof.
+  apply conc_concs_ind.
+  - intros l sens ls b G j Hc Hn Hf. conc_start Hf. split; [|left; reflexivity].
+    rewrite check_conc_CProc in Hc |- *. minv Hc. cbn [nids_conc] in Hn. nd_split.
+    match goal with H : check_ldecls _ _ _ ls = Ok _ |- _ => rewrite (walk_ldecls_app _ _ _ _ H) in Hf end.
+    apply find_app_cases in Hf. destruct Hf as [Hf|[_ Hf]].
+    + pose proof (find_ldecls_in _ _ _ Hf) as Hin.
+      rewrite (sub_stmts_id b) by notin s.
+      erewrite sub_ldecls_B by eassumption.
+      fin_v j.
+    + pose proof (find_stmts_in _ _ _ Hf) as Hin.
+      rewrite (sub_ldecls_id ls) by notin s. fin. apply sub_stmts_B; assumption.
+  - conc_leaf.
+  - intros l ds b IHb G j Hc Hn Hf. conc_start Hf.
+    rewrite check_conc_CBlock in Hc |- *. minv Hc. cbn [nids_conc] in Hn. nd_split.
+    match goal with H : check_decls _ _ _ _ _ ds = Ok _ |- _ => rewrite (walk_decls_app _ _ _ _ _ _ H) in Hf end.
+    apply find_app_cases in Hf. destruct Hf as [Hf|[_ Hf]].
+    + pose proof (find_decls_in _ _ _ _ _ Hf) as Hin.
+      rewrite (sub_concs_id b) by notin s. split; [|left; reflexivity].
+      erewrite sub_decls_B by eassumption.
+      fin_v j.
+    + pose proof (find_concs_in _ _ _ Hf) as Hin.
+      rewrite (sub_decls_id ds) by notin s.
+      match goal with H : check_concs _ _ ?a b = Ok tt |- _ => destruct (IHb a j H ltac:(assumption) Hf) as [H1 H2] end.
+      split; [fin; exact H1|]. rewrite !labels_conc_CBlock. apply lab_rel_cons. exact H2.
+  - conc_leaf.
+  - conc_leaf.
+  - intros G j _ _ Hf. discriminate Hf.
+  - intros x IHx r IHr G j Hc Hn Hf. rewrite walk_concs_cons in Hf. rewrite sub_concs_cons.
+    rewrite check_concs_cons in Hc |- *. minv Hc. cbn [nids_concs] in Hn. nd_split.
+    rewrite !labels_concs_cons.
+    apply find_app_cases in Hf. destruct Hf as [Hf|[_ Hf]].
+    + pose proof (find_conc_in _ _ _ Hf) as Hin.
+      rewrite (sub_concs_id r) by notin s. destruct (IHx G j ltac:(assumption) ltac:(assumption) Hf) as [H1 H2].
+      split; [rewrite H1; fin_v j|apply lab_rel_app_l; exact H2].
+    + pose proof (find_concs_in _ _ _ Hf) as Hin.
+      rewrite (proj1 sub_conc_id x) by notin s. destruct (IHr G j ltac:(assumption) ltac:(assumption) Hf) as [H1 H2].
+      split; [fin; exact H1|apply lab_rel_app_r; exact H2].
+Qed.
+Definition sub_concs_B := proj2 sub_conc_B.
+
+End WithGE2.
+
+(* ------------------------------------------------------------------------------------------ *)
+(* design units, libraries, program                                                             *)
+(* ------------------------------------------------------------------------------------------ *)
+Definition unit_labels (u : dunit) : list ident :=
+  match u_body u with UArch _ _ _ b => labels_concs b | _ => [] end.
+Definition prog_labels (p : program) : list ident :=
+  flat_map (fun l => flat_map unit_labels (l_units l)) p.
+(* the labels of the new concurrent statement: those of the old one and some new ones that occur nowhere in L *)
+Definition lab_ok (j : pinfo) (L : list ident) : Prop :=
+  forall c0, pi_ph j = PConc c0 ->
+  exists pre, labels_conc (fc c0) = pre ++ labels_conc c0 /\ NoDup pre /\ forall x, In x pre -> ~ In x L.
+Lemma lab_ok_mono j L L' : (forall x, In x L' -> In x L) -> lab_ok j L -> lab_ok j L'.
+Proof.
+  intros Hsub H c0 Hc0. destruct (H c0 Hc0) as [pre [H1 [H2 H3]]]. exists pre. split; [exact H1|]. split; [exact H2|].
+  intros x Hx Hin. exact (H3 x Hx (Hsub x Hin)).
+Qed.
+Lemma lab_rel_nodup j L L' : lab_rel j L L' -> lab_ok j L -> nodup_idents L = true -> nodup_idents L' = true.
+Proof.
+  intros [H|[c0 [l1 [l2 [H1 [H2 H3]]]]]] Hok Hnd; [subst; exact Hnd|].
+  destruct (Hok c0 H1) as [pre [Hp [Hpn Hpd]]].
+  rewrite nodup_idents_NoDup in *. subst L'. rewrite Hp.
+  apply (Permutation_NoDup (l := pre ++ L)).
+  - subst L. repeat rewrite <- app_assoc. apply Permutation_app_swap_app.
+  - apply NoDup_app_intro; [exact Hpn|exact Hnd|]. intros x Hx Hin. exact (Hpd x Hx Hin).
+Qed.
+
+Lemma find_unit_guard GE l n : (if n =? id_undeclared then None else find_unit GE l n) = find_unit GE l n.
+Proof. unfold find_unit. destruct (n =? id_undeclared); reflexivity. Qed.
+
+Lemma existsb_sub_iface gs :
+  (fun y => existsb (fun i => o_id (i_occ i) =? y) (map (sub_iface s fe) gs)) =
+  (fun y => existsb (fun i => o_id (i_occ i) =? y) gs).
+Proof.
+  induction gs as [|a r IH]; [reflexivity|]. cbn [map existsb].
+  exact (f_equal (fun K : ident -> bool => fun y : ident => (o_id (i_occ a) =? y) || K y) IH).
+Qed.
+Lemma gen_exports_sub gs (m : fmap) :
+  (fun y => if existsb (fun i => o_id (i_occ i) =? y) (map (sub_iface s fe) gs) then [] else m y) =
+  (fun y => if existsb (fun i => o_id (i_occ i) =? y) gs then [] else m y).
+Proof.
+  exact (f_equal (fun K : ident -> bool => fun y : ident => if K y then @nil binding else m y) (existsb_sub_iface gs)).
+Qed.
+
+Ltac fin_vm md j := fin; generalize (Vf md j); intros [[]|? ?]; fin; try reflexivity.
+
+Lemma sub_unit_B md GE LIBS lib uid u g j :
+  check_unit md GE LIBS lib uid u = Ok g -> NoDup (nids_dunit u) ->
+  find is_s (walk_unit md GE LIBS lib uid u) = Some j -> lab_ok j (unit_labels u) ->
+  check_unit md GE LIBS lib uid (sub_dunit s fs fc fe u) = (Vf md j ;;; Ok g).
+Proof.
+  destruct u as [ctx b]. unfold check_unit, walk_unit, sub_dunit, nids_dunit, unit_labels. cbn [u_ctx u_body].
+  intros Hc Hn Hf Hlab. apply NoDup_app_inv in Hn. destruct Hn as [_ [Hn _]].
+  destruct b as [o ds|o ds|o gs ps|o e ds body|o e a|o items|o gs ds|o l g0 gm];
+    cbn [sub_ubody nids_ubody] in *; try discriminate Hf.
+  - (* UPkg *)
+    minv Hc. nd_split.
+    match goal with H : check_ctx _ _ _ _ = Ok _ |- _ => rewrite H in Hf end. cbn [ok_env] in Hf.
+    fin. erewrite sub_decls_B by eassumption. fin_vm md j.
+    rewrite decl_obligations_sub. assumption.
+  - (* UBody *)
+    rewrite find_unit_guard in Hc |- *.
+    destruct (find_unit GE lib (o_id o)) as [[ex inner obl|? ? ?|?| |?|gs ex inner obl|?| ]|]; try discriminate Hf.
+    + minv Hc. nd_split.
+      match goal with H : check_ctx _ _ _ _ = Ok _ |- _ => rewrite H in Hf end. cbn [ok_env] in Hf.
+      fin. erewrite sub_decls_B by eassumption. fin_vm md j; try assumption.
+    + minv Hc. nd_split.
+      match goal with H : check_ctx _ _ _ _ = Ok _ |- _ => rewrite H in Hf end. cbn [ok_env] in Hf.
+      fin. erewrite sub_decls_B by eassumption. fin_vm md j; try assumption.
+  - (* UEnt *)
+    minv Hc. nd_split.
+    match goal with H : check_ctx _ _ _ _ = Ok _ |- _ => rewrite H in Hf end. cbn [ok_env] in Hf.
+    match goal with H : declare_ifaces _ _ KConst _ gs = Ok _ |- _ => rewrite (walk_ifaces_app _ _ _ _ _ _ _ H) in Hf end.
+    apply find_app_cases in Hf. destruct Hf as [Hf|[_ Hf]]; pose proof (find_ifaces_in _ _ _ _ _ _ Hf) as Hin.
+    + rewrite (sub_ifaces_id ps) by notin s. fin. erewrite sub_ifaces_B by eassumption. fin_vm md j.
+      rewrite !iface_sigs_sub. assumption.
+    + rewrite (sub_ifaces_id gs) by notin s. fin. erewrite sub_ifaces_B by eassumption. fin_vm md j.
+      rewrite !iface_sigs_sub. assumption.
+  - (* UArch *)
+    rewrite find_unit_guard in Hc |- *.
+    destruct (find_unit GE lib (o_id e)) as [[| ? ? inner | | | | | | ]|]; try discriminate Hf.
+    minv Hc. nd_split.
+    match goal with H : check_ctx _ _ _ _ = Ok _ |- _ => rewrite H in Hf end. cbn [ok_env] in Hf.
+    match goal with H : check_decls _ _ _ _ _ ds = Ok _ |- _ => rewrite (walk_decls_app _ _ _ _ _ _ _ _ H) in Hf end.
+    apply find_app_cases in Hf. destruct Hf as [Hf|[_ Hf]].
+    + pose proof (find_decls_in _ _ _ _ _ _ _ Hf) as Hin.
+      rewrite (sub_concs_id body) by notin s. fin. erewrite sub_decls_B by eassumption. fin_vm md j; try assumption.
+    + pose proof (find_concs_in _ _ _ _ _ Hf) as Hin.
+      rewrite (sub_decls_id ds) by notin s.
+      match goal with H : check_concs _ _ ?a body = Ok tt |- _ =>
+        destruct (sub_concs_B md GE body a j H ltac:(assumption) Hf) as [H1 H2] end.
+      match goal with H : nodup_idents (labels_concs body) = true |- _ =>
+        pose proof (lab_rel_nodup _ _ _ H2 Hlab H) as H3 end.
+      fin. rewrite H1. fin_vm md j; try assumption.
+  - (* UGen *)
+    minv Hc. nd_split.
+    match goal with H : check_ctx _ _ _ _ = Ok _ |- _ => rewrite H in Hf end. cbn [ok_env] in Hf.
+    match goal with H : declare_ifaces _ _ KConst _ gs = Ok _ |- _ => rewrite (walk_ifaces_app _ _ _ _ _ _ _ H) in Hf end.
+    apply find_app_cases in Hf. destruct Hf as [Hf|[_ Hf]].
+    + pose proof (find_ifaces_in _ _ _ _ _ _ Hf) as Hin.
+      rewrite (sub_decls_id ds) by notin s. fin. erewrite sub_ifaces_B by eassumption. fin_vm md j.
+      rewrite iface_sigs_sub, gen_exports_sub. assumption.
+    + pose proof (find_decls_in _ _ _ _ _ _ _ Hf) as Hin.
+      rewrite (sub_ifaces_id gs) by notin s. fin. erewrite sub_decls_B by eassumption. fin_vm md j.
+      rewrite decl_obligations_sub. assumption.
+Qed.
+
+Lemma walk_units_app md LIBS lib us : forall GE uid x k,
+  check_units md GE LIBS lib uid us = Ok x ->
+  walk_units md GE LIBS lib uid us k = walk_units md GE LIBS lib uid us (fun _ _ => []) ++ k (fst x) (snd x).
+Proof.
+  induction us as [|u r IH]; intros GE uid x k Hc; cbn [check_units walk_units] in *.
+  - injection Hc as Hc. subst x. reflexivity.
+  - minv Hc. rewrite E. rewrite (IH _ _ _ k E0). rewrite app_assoc. reflexivity.
+Qed.
+Lemma find_units_in md GE LIBS lib uid us j :
+  find is_s (walk_units md GE LIBS lib uid us (fun _ _ => [])) = Some j -> In s (flat_map nids_dunit us).
+Proof.
+  intros H. apply find_is_s_in in H. destruct H as [H1 H2]. rewrite <- H2.
+  apply walk_units_ids in H1. destruct H1 as [H1|[GE' [uid' []]]]. exact H1.
+Qed.
+Lemma find_unit_in md GE LIBS lib uid u j :
+  find is_s (walk_unit md GE LIBS lib uid u) = Some j -> In s (nids_dunit u).
+Proof. intros H. apply find_is_s_in in H. destruct H as [H1 H2]. rewrite <- H2. exact (walk_unit_ids _ _ _ _ _ _ _ H1). Qed.
+Lemma find_libs_in md GE LIBS uid ls j :
+  find is_s (walk_libs md GE LIBS uid ls) = Some j -> In s (flat_map nids_library ls).
+Proof. intros H. apply find_is_s_in in H. destruct H as [H1 H2]. rewrite <- H2. exact (walk_libs_ids _ _ _ _ _ _ H1). Qed.
+
+Lemma sub_units_B md LIBS lib us : forall GE uid x j,
+  check_units md GE LIBS lib uid us = Ok x -> NoDup (flat_map nids_dunit us) ->
+  find is_s (walk_units md GE LIBS lib uid us (fun _ _ => [])) = Some j ->
+  Forall (fun u => lab_ok j (unit_labels u)) us ->
+  check_units md GE LIBS lib uid (map (sub_dunit s fs fc fe) us) = (Vf md j ;;; Ok x).
+Proof.
+  induction us as [|u r IH]; intros GE uid x j Hc Hn Hf Hlab; cbn [check_units walk_units map] in *; [discriminate Hf|].
+  minv Hc. rewrite E in Hf. rewrite flat_map_cons in Hn. nd_split.
+  inversion Hlab as [|? ? Hl1 Hl2]; subst.
+  apply find_app_cases in Hf. destruct Hf as [Hf|[_ Hf]].
+  - pose proof (find_unit_in _ _ _ _ _ _ _ Hf) as Hin.
+    rewrite (sub_dunits_id r) by notin s. rewrite (sub_unit_B _ _ _ _ _ _ _ _ E Nd Hf Hl1). fin_vm md j.
+  - pose proof (find_units_in _ _ _ _ _ _ _ Hf) as Hin.
+    rewrite (sub_dunit_id u) by notin s. fin. apply IH; assumption.
+Qed.
+
+Lemma sub_program_cons l r :
+  sub_program s fs fc fe (l :: r) = Lib (l_name l) (map (sub_dunit s fs fc fe) (l_units l)) :: sub_program s fs fc fe r.
+Proof. reflexivity. Qed.
+Lemma sub_libs_B md LIBS ls : forall GE uid GE' j,
+  check_libs md GE LIBS uid ls = Ok GE' -> NoDup (flat_map nids_library ls) ->
+  find is_s (walk_libs md GE LIBS uid ls) = Some j ->
+  Forall (fun l => Forall (fun u => lab_ok j (unit_labels u)) (l_units l)) ls ->
+  check_libs md GE LIBS uid (sub_program s fs fc fe ls) = (Vf md j ;;; Ok GE').
+Proof.
+  induction ls as [|l r IH]; intros GE uid GE' j Hc Hn Hf Hlab; [discriminate Hf|].
+  rewrite sub_program_cons. cbn [check_libs walk_libs l_name l_units] in *.
+  minv Hc. rewrite flat_map_cons in Hn. unfold nids_library at 1 in Hn. nd_split.
+  inversion Hlab as [|? ? Hl1 Hl2]; subst.
+  rewrite (walk_units_app _ _ _ _ _ _ _ _ E) in Hf.
+  apply find_app_cases in Hf. destruct Hf as [Hf|[_ Hf]].
+  - pose proof (find_units_in _ _ _ _ _ _ _ Hf) as Hin.
+    rewrite (sub_program_id r) by (unfold nids_program; notin s).
+    rewrite (sub_units_B _ _ _ _ _ _ _ _ E Nd Hf Hl1). fin_vm md j.
+  - pose proof (find_libs_in _ _ _ _ _ _ Hf) as Hin.
+    rewrite (sub_dunits_id (l_units l)) by notin s. fin. apply IH; assumption.
+Qed.
+
+Lemma sub_program_names p : map l_name (sub_program s fs fc fe p) = map l_name p.
+Proof. unfold sub_program. rewrite map_map. reflexivity. Qed.
+
+Theorem replace_general_md md p j :
+  check_program_md md p = Ok tt -> NoDup (nids_program p) ->
+  find is_s (walk_libs md [] (map l_name p) 0 p) = Some j ->
+  lab_ok j (prog_labels p) ->
+  check_program_md md (sub_program s fs fc fe p) = Vf md j.
+Proof.
+  intros Hc Hn Hf Hlab. unfold check_program_md in Hc |- *. cbv zeta in Hc |- *. rewrite sub_program_names.
+  minv Hc.
+  assert (HL : Forall (fun l => Forall (fun u => lab_ok j (unit_labels u)) (l_units l)) p).
+  { apply Forall_forall. intros l Hl. apply Forall_forall. intros u Hu.
+    apply (lab_ok_mono j (prog_labels p)); [|exact Hlab].
+    intros x Hx. unfold prog_labels. apply in_flat_map. exists l. split; [exact Hl|].
+    apply in_flat_map. exists u. split; [exact Hu|exact Hx]. }
+  fin. rewrite (sub_libs_B _ _ _ _ _ _ _ E1 Hn Hf HL). fin_vm md j.
+Qed.
+
+Theorem replace_general p j :
+  Valid p -> NoDup (nids_program p) -> find_phrase p s = Some j -> lab_ok j (prog_labels p) ->
+  check_program (sub_program s fs fc fe p) = Vf Exactly j.
+Proof. intros Hv Hn Hf Hlab. exact (replace_general_md Exactly p j Hv Hn Hf Hlab). Qed.
 
 End Repl.
